@@ -11,11 +11,16 @@ from . import io_family as F
 
 LEVEL = 'other'
 EXPLANATION = ("Decided exactly: (a) every call from the writers into pandas binds to the installed signature (static obligation per call site); (b) the column tables used by "
-               "the writer and by the reader agree for every atom_style x unit style (finite, exhaustive, executed on the real table functions). Everything else in this "
-               "property is text produced through pandas' to_csv and C printf, which no contract within reach of the available verifiers can express: those clauses are BOUNDED "
-               "run-time contract checks whose post-conditions are independent parsers of the LAMMPS data / dump and POSCAR formats (no atomman code), over an exhaustive stated family.")
-ASSUMPTIONS = ["pandas / printf behaviour is not assumed (bounded checks only)", "independent parsers written from the LAMMPS read_data / dump and VASP POSCAR format descriptions are the oracles"]
-UNCOVERED = ["systems, styles and formats outside the enumerated family"]
+               "the writer and by the reader agree for every atom_style x unit style (finite, exhaustive, executed on the real table functions); (c) the HEADER KERNELS of the three "
+               "writers are executed from the real source on symbolic systems with the numbers carried through the text as unique tokens (float_format='%s'; printf replaced by the "
+               "identity on numbers): the POSCAR writer in full (scale, lattice / scale, symbols, per-type counts, coordinate style, atoms grouped by type in original order with "
+               "relative or Cartesian/scale coordinates), the LAMMPS data header (bounds = origin and diagonal, tilt line present iff tilted, in the style's length unit, all 7 unit "
+               "styles; command snippet with boundary flags) and the LAMMPS dump header (items, pp/fm flags, bounding-box bounds lo+min(0,xy,xz,xy+xz) ... and tilt factors). "
+               "The per-atom tables go through pandas' to_csv and C printf, which no contract within reach of the available verifiers can express: those clauses, and rounding by "
+               "the number format, are BOUNDED run-time contract checks whose post-conditions are independent parsers of the three formats (no atomman code), over a stated family.")
+ASSUMPTIONS = ["token layer: the number format is replaced by the identity on numbers in the header-kernel proofs (which number is written where is proved; how it is rounded is bounded)",
+               "pandas / printf behaviour is not assumed (bounded checks only)", "independent parsers written from the LAMMPS read_data / dump and VASP POSCAR format descriptions are the oracles"]
+UNCOVERED = ["per-atom table text (pandas.to_csv) beyond the bounded family", "systems, styles and formats outside the enumerated family"]
 
 WRITERS = ['atomman/dump/atom_data/dump.py', 'atomman/dump/atom_dump/dump.py', 'atomman/dump/table/dump.py', 'atomman/dump/poscar/dump.py']
 STYLES = ['angle', 'atomic', 'body', 'bond', 'charge', 'dipole', 'electron', 'ellipsoid', 'full', 'line', 'meso', 'molecular', 'peri', 'smd', 'sphere', 'template', 'tri', 'wavepacket']
@@ -340,3 +345,220 @@ def poscar_wellformed(tier, seed):
             fails.append({'obligation': 'poscar.post', 'key': ck, 'input': key, 'detail': '; '.join(msgs[:3])})
     return {'family': 'POSCAR files', 'evaluations': evals, 'distinct_nontrivial': nontriv, 'rule': 'see group rule', 'samples': samples, 'failures': _dedupe(fails),
             'files': sha_files(['atomman/dump/poscar/dump.py'])}
+
+
+# ----------------------------------------------------------------------------
+# header kernels of the writers on symbolic systems, numbers carried through the text as tokens (printf replaced by the identity on numbers)
+
+from pyvc import symnp as snp
+from pyvc.sym import Sym
+from .common import arb_box, And, Or, Not, Iff
+from .common_io import Tokens
+
+POSCAR_W = 'atomman/dump/poscar/dump.py'
+DATA_W = 'atomman/dump/atom_data/dump.py'
+DUMP_W = 'atomman/dump/atom_dump/dump.py'
+BOXF = 'atomman/core/Box.py'
+SYSF = 'atomman/core/System.py'
+ATF = 'atomman/core/Atoms.py'
+
+
+def _replay_writers(stem, vals):
+    from pyvc.native import atomman
+    am = atomman()
+    msgs = []
+    try:
+        for bx in ('orthoO', 'tricl'):
+            s = F.make_system(am, bx, 'inside', (True, False, True), seed=3)
+            d = F.parse_lammps_data(s.dump('atom_data', return_info=False))
+            V = s.box.vects
+            want = [s.box.xlo, s.box.xhi, s.box.ylo, s.box.yhi, s.box.zlo, s.box.zhi, s.box.xy, s.box.xz, s.box.yz]
+            got = [d['xlo'], d['xhi'], d['ylo'], d['yhi'], d['zlo'], d['zhi'], d['xy'], d['xz'], d['yz']]
+            if not _np.allclose(got, want, atol=1e-9):
+                msgs.append('data file box %r != %r' % (got, want))
+            p = F.parse_poscar(s.dump('poscar'))
+            if not _np.allclose(p['lattice'] * p['scale'], V, atol=1e-9):
+                msgs.append('POSCAR lattice %r != %r' % (p['lattice'].tolist(), V.tolist()))
+            for units in ('metal', 'nano', 'si'):
+                Lu = am.unitconvert.parse(am.lammps.style.unit(units)['length'])
+                dd = F.parse_lammps_dump(s.dump('atom_dump', lammps_units=units, float_format='%.13e'))
+                b = _np.array([r[:2] for r in dd['bounds']]) * Lu
+                xy, xz, yz = s.box.xy, s.box.xz, s.box.yz
+                wantb = [s.box.xlo + min(0, xy, xz, xy + xz), s.box.xhi + max(0, xy, xz, xy + xz), s.box.ylo + min(0, yz), s.box.yhi + max(0, yz), s.box.zlo, s.box.zhi]
+                if not _np.allclose([b[0, 0], b[0, 1], b[1, 0], b[1, 1], b[2, 0], b[2, 1]], wantb, atol=1e-9):
+                    msgs.append('dump BOX BOUNDS (%s units) %r != %r' % (units, b.tolist(), wantb))
+                if bx == 'tricl' and not _np.allclose(_np.array([r[2] for r in dd['bounds']]) * Lu, [xy, xz, yz], atol=1e-9):
+                    msgs.append('dump tilt factors (%s units) %r != %r' % (units, [r[2] for r in dd['bounds']], [xy, xz, yz]))
+                d2 = F.parse_lammps_data(s.dump('atom_data', units=units, float_format='%.13e', return_info=False))
+                if not _np.allclose(_np.array([d2['xlo'], d2['xhi'], d2['xy'], d2['xz'], d2['yz']]) * Lu, [s.box.xlo, s.box.xhi, xy, xz, yz], atol=1e-9):
+                    msgs.append('data file box (%s units) differs' % units)
+    except Exception as e:
+        msgs.append('raised %s: %s' % (type(e).__name__, e))
+    return (len(msgs) > 0, '; '.join(msgs[:3]) if msgs else 'float replay of the writer header contracts found no disagreement')
+
+
+def _sym_system(E, L, lammps=True, origin=True, atype=(2, 1, 2), pbc=(True, True, True)):
+    core = L.resolve('atomman.core')
+    System, Atoms, Box = core.System, core.Atoms, core.Box
+    box, V, o = arb_box(E, Box, lammps=lammps)
+    if not origin:
+        for j in range(3):
+            o[j] = 0.0
+    s = E.reals('s', (len(atype), 3))
+    pos = snp.asarray(_np.asarray(s, dtype=object).dot(_np.asarray(V, dtype=object)) + _np.asarray(o, dtype=object))
+    system = System(atoms=Atoms(atype=list(atype), pos=pos.copy()), box=box, pbc=pbc, symbols=['Al', 'Cu'])
+    return system, V, o, s, pos
+
+
+@group('poscar.writer.tokens', files=[POSCAR_W, SYSF, BOXF], functions=['dump.poscar.dump'],
+       clause='POSCAR writer on a symbolic system (numbers carried through the text as tokens): line 1 header, line 2 the scale, lines 3-5 the cell vectors divided by the scale, then the '
+              'symbols, the atom count of every type 1..natypes, the coordinate style and one line per atom grouped by type in the original order, holding the relative coordinates '
+              '(direct) or the Cartesian coordinates divided by the scale (cartesian); nothing else', replay=_replay_writers, timeout_ms=30000)
+def poscar_writer(E, L):
+    mod = L.load(POSCAR_W)
+    first = True
+    for style, origin in (('direct', True), ('Cartesian', False), ('cartesian', True)):
+        system, V, o, s, pos = _sym_system(E, L, origin=origin)
+        scale = E.real('scale')
+        E.assume(scale > 0)
+        if first:
+            E.canary('poscar.writer.canary', s[0, 0] == scale)
+            first = False
+        E.side_enabled = False          # divisions by the positive diagonal / scale: side conditions belong to C01
+        with Tokens() as tk:
+            text = mod.dump(system, header='a header', coordstyle=style, box_scale=scale, float_format='%s')
+        E.side_enabled = True
+        lines = text.split('\n')
+        tag = 'poscar.writer[%s]' % style
+        E.prove(tag + '.line_count', len(lines) == 8 + 3)
+        E.prove(tag + '.header', lines[0] == 'a header')
+        E.prove(tag + '.scale', tk.value(lines[1]) == scale)
+        for i in range(3):
+            toks = lines[2 + i].split()
+            E.prove(tag + '.lattice_row_has_three[%d]' % i, len(toks) == 3)
+            for j in range(3):
+                E.prove(tag + '.lattice[%d,%d]' % (i, j), tk.value(toks[j]) * scale == V[i, j])
+        E.prove(tag + '.symbols', lines[5].split() == ['Al', 'Cu'])
+        E.prove(tag + '.counts', lines[6].split() == ['1', '2'])
+        E.prove(tag + '.style_line', lines[7] == style)
+        order = [1, 0, 2]                 # type 1 first (atom 1), then type 2 in the original order (atoms 0, 2)
+        for r, k in enumerate(order):
+            toks = lines[8 + r].split()
+            E.prove(tag + '.atom_row_has_three[%d]' % r, len(toks) == 3)
+            for j in range(3):
+                if style[0] in 'cCkK':
+                    E.prove(tag + '.cartesian_over_scale[%d,%d]' % (r, j), tk.value(toks[j]) * scale == pos[k, j])
+                else:
+                    E.prove(tag + '.relative_coordinate[%d,%d]' % (r, j), tk.value(toks[j]) == s[k, j])
+    # refusals
+    system, V, o, s, pos = _sym_system(E, L)
+    for kw, nm in ((dict(header='two\nlines'), 'multiline_header'), (dict(symbols=['Al']), 'wrong_symbol_count')):
+        try:
+            with Tokens():
+                mod.dump(system, float_format='%s', **kw)
+            E.prove('poscar.writer.refuses_%s' % nm, False)
+        except (AssertionError, ValueError):
+            E.prove('poscar.writer.refuses_%s' % nm, True)
+
+
+@group('data_file.box.tokens', files=[DATA_W, BOXF, 'atomman/unitconvert.py', 'atomman/lammps/style.py'], functions=['dump.atom_data.box_content', 'dump.atom_data.info_content'],
+       clause='LAMMPS data header on a symbolic LAMMPS-normal cell, all seven unit styles: the three bound lines carry (lo, hi) of x, y, z in the style\'s length unit with the labels '
+              'xlo xhi / ylo yhi / zlo zhi, hi - lo are the diagonal cell components and lo the origin; the tilt line "xy xz yz" is present exactly when a tilt is non-zero and carries '
+              'the three off-diagonal components in that order; the command snippet names the units, atom style and one boundary flag per direction (p periodic, m otherwise)',
+       replay=_replay_writers, timeout_ms=30000)
+def data_box(E, L):
+    mod = L.load(DATA_W)
+    uc = L.resolve('atomman.unitconvert')
+    core = L.resolve('atomman.core')
+    first = True
+    for units, tilted in itertools.product(UNITS, (True, False)):
+        Box = core.Box
+        box, V, o = arb_box(E, Box, lammps=True)
+        if not tilted:
+            V[1, 0] = V[2, 0] = V[2, 1] = 0.0
+        else:
+            E.assume(Or(V[1, 0] != 0, V[2, 0] != 0, V[2, 1] != 0))
+        if first:
+            E.canary('data_file.box.canary', V[0, 0] == o[0])
+            first = False
+
+        class S(object):
+            pass
+        sysm = S()
+        sysm.box = box
+        Lu = uc.parse(L.resolve('atomman.lammps.style').unit(units)['length'])
+        with Tokens() as tk:
+            text = mod.box_content(sysm, units, '%s')
+        lines = text.split('\n')
+        tag = 'data_file.box[%s,%s]' % (units, 'tilted' if tilted else 'orthogonal')
+        E.prove(tag + '.line_count', len(lines) == (5 if tilted else 4) and lines[-1] == '')
+        for i, lab in enumerate(('xlo xhi', 'ylo yhi', 'zlo zhi')):
+            toks = lines[i].split()
+            E.prove(tag + '.labels[%d]' % i, len(toks) == 4 and ' '.join(toks[2:]) == lab)
+            lo, hi = tk.value(toks[0]), tk.value(toks[1])
+            E.prove(tag + '.lo_is_origin[%d]' % i, lo * Lu == o[i])
+            E.prove(tag + '.extent_is_diagonal[%d]' % i, (hi - lo) * Lu == V[i, i])
+        if tilted:
+            toks = lines[3].split()
+            E.prove(tag + '.tilt_labels', len(toks) == 6 and toks[3:] == ['xy', 'xz', 'yz'])
+            for k, (i, j) in enumerate(((1, 0), (2, 0), (2, 1))):
+                E.prove(tag + '.tilt[%d]' % k, tk.value(toks[k]) * Lu == V[i, j])
+    for pbc in itertools.product((True, False), repeat=3):
+        class S2(object):
+            pass
+        s2 = S2()
+        s2.pbc = _np.array(pbc)
+        info = mod.info_content(s2, 'file.dat', atom_style='charge', units='real')
+        want = 'boundary ' + ' '.join('p' if p else 'm' for p in pbc)
+        E.prove('data_file.info[%s]' % ''.join('p' if p else 'f' for p in pbc), want in info.split('\n') and 'units real' in info.split('\n') and 'atom_style charge' in info.split('\n')
+                and 'read_data file.dat' in info.split('\n'))
+
+
+@group('dump_file.header.tokens', files=[DUMP_W, BOXF, SYSF, 'atomman/unitconvert.py'], functions=['dump.atom_dump.dump (header)'],
+       clause='LAMMPS dump header on a symbolic LAMMPS-normal cell, all unit styles and periodicities: TIMESTEP and NUMBER OF ATOMS items; "BOX BOUNDS" carries "xy xz yz" exactly for tilted '
+              'cells, then one flag per direction (pp periodic, fm otherwise); the three rows are LAMMPS\' bounding-box bounds xlo+min(0,xy,xz,xy+xz), xhi+max(0,xy,xz,xy+xz), '
+              'ylo+min(0,yz), yhi+max(0,yz), zlo, zhi in the length unit, followed by xy, xz, yz for tilted cells; the ATOMS item lists the table columns',
+       replay=_replay_writers, timeout_ms=60000)
+def dump_header(E, L):
+    mod = L.load(DUMP_W)
+    uc = L.resolve('atomman.unitconvert')
+    first = True
+    for units, tilted, pbc in itertools.product(('metal', 'real', 'nano', 'si'), (True, False), ((True, True, True), (True, False, True), (False, False, False))):
+        system, V, o, s, pos = _sym_system(E, L, pbc=pbc)
+        if not tilted:
+            # rebuild with an orthogonal symbolic cell
+            box = system.box
+            box._Box__vects[1, 0] = 0.0
+            box._Box__vects[2, 0] = 0.0
+            box._Box__vects[2, 1] = 0.0
+            V = box._Box__vects
+        else:
+            E.assume(Or(V[1, 0] != 0, V[2, 0] != 0, V[2, 1] != 0))
+        if first:
+            E.canary('dump_file.header.canary', V[0, 0] == o[0])
+            first = False
+        Lu = uc.parse(L.resolve('atomman.lammps.style').unit(units)['length'])
+        real_td = mod.table_dump
+        mod.table_dump = lambda system, prop_info=None, float_format=None: '<TABLE>'
+        try:
+            with Tokens() as tk:
+                text = mod.dump(system, lammps_units=units, float_format='%s')
+        finally:
+            mod.table_dump = real_td
+        lines = text.split('\n')
+        tag = 'dump_file.header[%s,%s,%s]' % (units, 'tilted' if tilted else 'orthogonal', ''.join('p' if p else 'f' for p in pbc))
+        E.prove(tag + '.items', lines[0] == 'ITEM: TIMESTEP' and lines[1] == '0' and lines[2] == 'ITEM: NUMBER OF ATOMS' and lines[3] == '3')
+        flags = ' '.join('pp' if p else 'fm' for p in pbc)
+        E.prove(tag + '.bounds_item', lines[4] == ('ITEM: BOX BOUNDS xy xz yz ' if tilted else 'ITEM: BOX BOUNDS ') + flags)
+        xy, xz, yz = V[1, 0], V[2, 0], V[2, 1]
+        lo = [o[0] + snp.minimum(snp.minimum(0, xy), snp.minimum(xz, xy + xz)), o[1] + snp.minimum(0, yz), o[2]]
+        hi = [o[0] + V[0, 0] + snp.maximum(snp.maximum(0, xy), snp.maximum(xz, xy + xz)), o[1] + V[1, 1] + snp.maximum(0, yz), o[2] + V[2, 2]]
+        tilt = [xy, xz, yz]
+        for i in range(3):
+            toks = lines[5 + i].split()
+            E.prove(tag + '.row_width[%d]' % i, len(toks) == (3 if tilted else 2))
+            E.prove(tag + '.lo_bound[%d]' % i, tk.value(toks[0]) * Lu == lo[i])
+            E.prove(tag + '.hi_bound[%d]' % i, tk.value(toks[1]) * Lu == hi[i])
+            if tilted:
+                E.prove(tag + '.tilt[%d]' % i, tk.value(toks[2]) * Lu == tilt[i])
+        E.prove(tag + '.atoms_item', lines[8].startswith('ITEM: ATOMS id type x y z') and lines[9] == '<TABLE>')
